@@ -248,10 +248,10 @@ func (m *Map) pt(label string) {
 	ex.block(&pend{kind: kCell, obj: m.obj, label: label})
 }
 
-func (m *Map) Load(k any) (any, bool)   { m.pt("load"); return m.real.Load(k) }
-func (m *Map) Store(k, v any)           { m.pt("store"); m.real.Store(k, v) }
-func (m *Map) Delete(k any)             { m.pt("delete"); m.real.Delete(k) }
-func (m *Map) Clear()                   { m.pt("clear"); m.real.Clear() }
+func (m *Map) Load(k any) (any, bool)    { m.pt("load"); return m.real.Load(k) }
+func (m *Map) Store(k, v any)            { m.pt("store"); m.real.Store(k, v) }
+func (m *Map) Delete(k any)              { m.pt("delete"); m.real.Delete(k) }
+func (m *Map) Clear()                    { m.pt("clear"); m.real.Clear() }
 func (m *Map) Swap(k, v any) (any, bool) { m.pt("swap"); return m.real.Swap(k, v) }
 func (m *Map) LoadOrStore(k, v any) (any, bool) {
 	m.pt("loadorstore")
